@@ -765,3 +765,115 @@ Example pragma_line_vs_argument_ex :
   (effective_level None (pragma_line 2 ++ c_nl :: [120; 61; 49; 10]) = Ok (PLevel 2)) /\
   (effective_level (Some 0%Z) (pragma_line 2 ++ c_nl :: [120; 61; 49; 10]) = Ok (PLevel 0)).
 Proof. vm_compute. repeat split. Qed.
+
+(* ---- running: the names are bound to the query results ------------------------ *)
+Section RunProofs.
+  Context {R : Type}.
+
+  Lemma lookup_last_notin (l : list (list byte * R)) k :
+    ~ In k (map fst l) -> lookup_last k l = None.
+  Proof.
+    induction l as [|[k' v] r IH]; intros H; cbn [lookup_last]; [reflexivity|].
+    cbn [map fst In] in H. rewrite IH by tauto.
+    destruct (bytes_eqb k k') eqn:E; [|reflexivity]. apply bytes_eqb_eq in E. exfalso. apply H. left. congruence.
+  Qed.
+
+  Lemma lookup_last_nodup (l : list (list byte * R)) k v :
+    NoDup (map fst l) -> In (k, v) l -> lookup_last k l = Some v.
+  Proof.
+    induction l as [|[k' v'] r IH]; intros Hnd Hin; [destruct Hin|].
+    cbn [map fst] in Hnd. inversion Hnd as [|? ? Hk' Hr]; subst. cbn [lookup_last].
+    destruct Hin as [E|Hin].
+    - injection E as -> ->. rewrite lookup_last_notin by exact Hk'. rewrite bytes_eqb_refl. reflexivity.
+    - rewrite (IH Hr Hin). reflexivity.
+  Qed.
+
+  Lemma dec_bytes_head k : exists c t, dec_bytes k = c :: t /\ is_digit c = true.
+  Proof.
+    unfold dec_bytes. assert (Hd := uint_bytes_digits (N.to_uint k)).
+    assert (Hn : N.to_uint k <> Decimal.Nil).
+    { rewrite <- unorm_to_uint. apply DecimalFacts.unorm_nonnil. }
+    destruct (N.to_uint k); try contradiction; cbn [uint_bytes forallb] in *;
+      eexists; eexists; (split; [reflexivity|reflexivity]).
+  Qed.
+
+  Lemma varname_not_special i : varname i <> name_message /\ varname i <> name_filename.
+  Proof.
+    destruct (dec_bytes_head i) as [c [t [E Hc]]]. unfold varname. rewrite E.
+    split; intros H; cbn in H; injection H as H _; subst c; discriminate.
+  Qed.
+
+  Lemma number_from_names keys : forall i k v,
+    In (k, v) (number_from i keys) -> exists j, v = varname j /\ i <= j.
+  Proof.
+    induction keys as [|k0 r IH]; intros i k v Hin; [destruct Hin|].
+    cbn [number_from In] in Hin. destruct Hin as [Hin|Hin].
+    - apply (f_equal snd) in Hin. cbn [snd] in Hin. exists i. split; [congruence|lia].
+    - apply IH in Hin as [j [-> Hj]]. exists j. split; [reflexivity|lia].
+  Qed.
+
+  Lemma number_from_names_nodup keys : forall i, NoDup (map snd (number_from i keys)).
+  Proof.
+    induction keys as [|k r IH]; intros i; cbn [number_from map snd]; constructor; [|apply IH].
+    intros Hin. apply in_map_iff in Hin as [[k' v'] [E Hin]]. cbn [snd] in E. subst v'.
+    apply number_from_names in Hin as [j [Hv Hj]]. apply varname_inj in Hv. lia.
+  Qed.
+
+  (* running a segment script: every embedded expression's name is bound to the
+     result of its (trimmed) query, the two extra names to the message and the
+     file name, and nothing else is bound *)
+  Theorem run_binds : forall segs (query : list byte -> R) msg filename,
+    let keys := first_occ (exprs segs) in
+    let vars := prepare_variables query msg filename (snd (spec_segments segs)) in
+    (forall e, In (Embed e) segs ->
+               lookup_last (out_seg keys (Embed e)) vars = Some (query (strip e))) /\
+    lookup_last name_message vars = Some msg /\
+    lookup_last name_filename vars = Some filename /\
+    map fst vars = map varname (map N.of_nat (seq 0 (length keys))) ++ [name_message; name_filename].
+  Proof.
+    intros segs query msg filename keys vars.
+    unfold vars, spec_segments, prepare_variables. cbn [snd]. fold keys.
+    set (m := number_from 0 keys).
+    assert (Hnames : map fst (map (fun kv : list byte * list byte => (snd kv, query (fst kv))) m) = map snd m).
+    { rewrite map_map. reflexivity. }
+    assert (Hspecial : forall nm, In nm (map snd m) -> nm <> name_message /\ nm <> name_filename).
+    { intros nm Hin. apply in_map_iff in Hin as [[k v] [<- Hin]]. cbn [snd].
+      unfold m in Hin. apply number_from_names in Hin as [i [-> _]].
+      apply varname_not_special. }
+    assert (Hnd : NoDup (map fst (map (fun kv : list byte * list byte => (snd kv, query (fst kv))) m ++
+                                  [(name_message, msg); (name_filename, filename)]))).
+    { rewrite map_app, Hnames. cbn [map fst].
+      assert (N0 := number_from_names_nodup keys 0). fold m in N0.
+      assert (A : forall (l : list (list byte)) a b, NoDup l -> ~ In a l -> ~ In b l -> a <> b -> NoDup (l ++ [a; b])).
+      { intros l a b Hl Ha Hb Hab. induction l as [|x l IHl]; cbn [app].
+        - constructor; [intros [E|[]]; congruence|]. constructor; [intros []|constructor].
+        - inversion Hl; subst. constructor.
+          + rewrite in_app_iff. cbn [In]. intros [H|[H|[H|[]]]]; [contradiction| |].
+            * apply Ha. left. symmetry. exact H.
+            * apply Hb. left. symmetry. exact H.
+          + apply IHl; [assumption| |]; intros H; [apply Ha|apply Hb]; right; exact H. }
+      apply A; [exact N0| | |discriminate].
+      - intros H. apply Hspecial in H. tauto.
+      - intros H. apply Hspecial in H. tauto. }
+    repeat split.
+    - intros e He. apply lookup_last_nodup; [exact Hnd|]. apply in_app_iff. left.
+      apply in_map_iff. exists (strip e, varname (index_of (strip e) keys)). split; [reflexivity|].
+      assert (Hk : In (strip e) keys).
+      { apply first_occ_from_in. right. apply exprs_in. eauto. }
+      unfold m. clear -Hk.
+      assert (G : forall i, In (strip e, varname (i + index_of (strip e) keys)) (number_from i keys)).
+      { induction keys as [|k0 r IH]; intros i; [destruct Hk|].
+        cbn [number_from index_of In]. destruct (bytes_eqb (strip e) k0) eqn:E.
+        - left. apply bytes_eqb_eq in E. rewrite N.add_0_r. congruence.
+        - right. apply bytes_eqb_neq in E. destruct Hk as [Hk|Hk]; [congruence|].
+          replace (i + (1 + index_of (strip e) r)) with (i + 1 + index_of (strip e) r) by lia. apply IH. exact Hk. }
+      apply (G 0).
+    - apply lookup_last_nodup; [exact Hnd|]. apply in_app_iff. right. left. reflexivity.
+    - apply lookup_last_nodup; [exact Hnd|]. apply in_app_iff. right. right. left. reflexivity.
+    - rewrite map_app, Hnames. cbn [map fst]. f_equal. unfold m. clear.
+      assert (G : forall i, map snd (number_from (N.of_nat i) keys) = map varname (map N.of_nat (seq i (length keys)))).
+      { induction keys as [|k0 r IH]; intros i; cbn [number_from map snd length seq]; [reflexivity|].
+        f_equal. replace (N.of_nat i + 1) with (N.of_nat (S i)) by lia. apply IH. }
+      apply (G 0%nat).
+  Qed.
+End RunProofs.
